@@ -61,7 +61,7 @@ struct Task {
     bool detached = false;
 };
 
-static const int MAX_TASKS = 80;
+static const int MAX_TASKS = 300;
 
 struct State {
     bool active = false;
@@ -391,6 +391,7 @@ int spawn(TaskFn fn, void* arg) {
     // PCT priorities: deterministic from the seed and id
     { uint64_t x = g.cfg.seed * 1315423911ull + (uint64_t)t->id * 2654435761ull; t->prio = 2000 + (uint32_t)(splitmix64(x) % 100000); }
     g.tasks.push_back(t);
+    g.st.tasks = (int)g.tasks.size();
     int saved = tls_in_sut; tls_in_sut = 0;
     pthread_attr_t at; pthread_attr_init(&at); pthread_attr_setstacksize(&at, 1 << 20);
     int rc = __real_pthread_create(&t->th, &at, trampoline, t);
